@@ -132,6 +132,10 @@ func c07Run(r *core.Run, c c07Case, forceLen, nRand int, seedIdx int) (*mon.Find
 // c07Snippets are Eval inputs aimed at constructs whose stack effect is easy
 // to get wrong.
 var c07Snippets = []string{
+	// a sort whose comparator sorts: every comparator activation has locals of its own
+	"import \"golang.org/x/exp/slices\"\nfunc best(t []int) int { c := append([]int{}, t...); slices.SortFunc(c, func(a int, b int) bool { d := a * 2; return d > b*2 }); return c[0] }\nteams := [][]int{{1, 5}, {9, 2}, {3, 3}, {7, 8}, {0, 4}}\nfor round := 0; round < 2; round++ { slices.SortFunc(teams, func(a []int, b []int) bool { x := best(a); y := best(b); keep := x*100 + y; return keep/100 < keep%100 }) }\nw := teams[0][0]\n_ = w",
+	// the comma-ok forms of a map lookup written as var declarations
+	`m := map[string]int{"a": 1}; func f() int { var v, ok = m["a"]; var w, ok2 = m["zz"]; if ok && !ok2 { return v + w }; return -1 }; for i := 0; i < 3; i++ { var a, b = m["a"]; var c, d int = 1, 2; _, _, _, _ = a, b, c, d; x := f(); _ = x }`,
 	// spread calls in every position a call can take: statement, value, sole operand of return, with other operands, method, nested
 	`func f(xs ...int) int { t := 0; for _, x := range xs { t += x }; return t }; func g(xs ...int) int { return f(xs...) }; func h(a int, xs ...int) (int, int) { return f(xs...), a }; func k(xs ...int) (int, int) { return h(1, xs...) }; type T struct { X int }; func (t *T) M(xs ...int) int { return f(xs...) + t.X }; func (t *T) N(xs ...int) int { return t.M(xs...) }; t := &T{X: 1}; for i := 0; i < 3; i++ { s := []int{4, 5, i}; a := g(s...); b, c := k(s...); d := t.N(s...); g(s...); k(); _, _, _, _ = a, b, c, d; var none []int; e := g(none...); _ = e }`,
 	// a local assigned to itself plus and minus several constants, at every nesting a statement can have
